@@ -28,6 +28,7 @@ else:
     vloader.CUT_MSG = "nomsgcut" not in OPTS
     vloader.CUT_FMTSPEC = "nofmtcut" not in OPTS
     vloader.VSETS = "vsets" in OPTS
+    vloader.KEEP_LOGGING_IN = tuple(o.split(":", 1)[1] for o in OPTS if o.startswith("keeplog:"))
     vloader.install()
 
 from tola.assembly.assembly import Assembly  # noqa: E402
